@@ -40,6 +40,13 @@ type MCase struct {
 	Pos   int    `json:"special_pos,omitempty"`
 	Val   string `json:"special_value,omitempty"` // "NaN", "+Inf", "-Inf"
 	Class string `json:"input_class"`
+	// entry (i,j) = s · 2^ScaleExp · d_i·d_j · (Base[i,j] + Tiny[i,j]·2^TinyExp), s = -1 if Negated,
+	// d_i = -1 if bit i of SignMask is set (square matrices only); all factors are exact in float64
+	Tiny     []int `json:"tiny_row_major,omitempty"`
+	TinyExp  int   `json:"tiny_exp2,omitempty"`
+	Negated  bool  `json:"negated,omitempty"`
+	ScaleExp int   `json:"scale_exp2,omitempty"`
+	SignMask int   `json:"sign_mask,omitempty"`
 }
 
 func (cs *MCase) has(tok string) bool {
@@ -67,6 +74,20 @@ func (cs *MCase) matrix() ad.Matrix {
 	v := make([]float64, len(cs.Base))
 	for i, x := range cs.Base {
 		v[i] = float64(x)
+		if cs.Tiny != nil && cs.Tiny[i] != 0 {
+			v[i] += math.Ldexp(float64(cs.Tiny[i]), cs.TinyExp)
+		}
+		if cs.Negated {
+			v[i] = -v[i]
+		}
+		if cs.ScaleExp != 0 {
+			v[i] = math.Ldexp(v[i], cs.ScaleExp)
+		}
+		if cs.SignMask != 0 {
+			if a, b := i/cs.C, i%cs.C; (cs.SignMask>>uint(a))&1 != (cs.SignMask>>uint(b))&1 {
+				v[i] = -v[i]
+			}
+		}
 	}
 	if cs.Val != "" {
 		v[cs.Pos] = special(cs.Val)
@@ -250,11 +271,16 @@ func (s *stager) matrix(cs *MCase, rank int64) {
 			}
 		}
 		key := fmt.Sprintf("TICK|%s|%s|%s", cs.Routine, optName(strings.Join(toks, ",")), cs.Class)
+		// a transformed input (negated / scaled / sign-similar): name only the transforms
+		// without which the stage-1 budget is kept
+		if x := neededTransforms(cs, budgetStage1(n)); x != "" {
+			key += "|" + x
+		}
 		if s.confirmed[key] < confirmPerKey {
 			status, label, ticks = runMatrix(cs, budgetFull(n))
 			if status == "TICK" {
 				s.confirmed[key]++
-				c.Violate(key, fmt.Sprintf("%s(%s) on a %dx%d %s input does not return within %d loop ticks (ordinary inputs of this size need < 1e4)", cs.Routine, optName(cs.Opts), cs.R, cs.C, cs.Class, budgetFull(n)), rank, Envelope{Kind: "matrix", M: cs})
+				c.Violate(key, fmt.Sprintf("%s(%s) on a %dx%d %s input%s does not return within %d loop ticks (ordinary inputs of this size need < 1e4)", cs.Routine, optName(cs.Opts), cs.R, cs.C, cs.Class, cs.transformText(), budgetFull(n)), rank, Envelope{Kind: "matrix", M: cs})
 			} else {
 				c.Count("slow_but_within_full_budget:"+cs.Routine, 1)
 			}
@@ -274,6 +300,7 @@ func (s *stager) matrix(cs *MCase, rank int64) {
 			d++
 		}
 		c.Count(fmt.Sprintf("matrix_ticks<1e%d", d), 1)
+		c.Count("kiloticks:"+cs.Routine, (ticks+500)/1000)
 		if !trivialInput(cs) {
 			c.Nontrivial(1)
 		}
@@ -294,7 +321,7 @@ func trivialInput(cs *MCase) bool {
 	}
 	for i := 0; i < cs.R; i++ {
 		for j := 0; j < cs.C; j++ {
-			if i != j && cs.Base[i*cs.C+j] != 0 {
+			if i != j && (cs.Base[i*cs.C+j] != 0 || (cs.Tiny != nil && cs.Tiny[i*cs.C+j] != 0)) {
 				return false
 			}
 		}
@@ -309,10 +336,26 @@ type mplan struct {
 	opts    []string
 }
 
-func plansFor(base []int, r, c int, full bool) []mplan {
+// plan modes: every routine; the iterative routines only (large lattices); the iterative
+// routines with the matrix square roots on symmetric inputs only (added families and transformed
+// variants: on an unsymmetric input msqrt/msqrtInv run into their iteration limit, 200 matrix
+// inversions, which the plain lattices cover)
+const (
+	planFull = iota
+	planIter
+	planLean
+)
+
+func planMode(full bool) int {
+	if full {
+		return planFull
+	}
+	return planIter
+}
+
+func plansFor(sym bool, r, c int, mode int) []mplan {
 	var ps []mplan
 	if r == c {
-		sym := lat.IsSymmetric(base, r)
 		ps = append(ps,
 			mplan{"qrAlgorithm", []string{"", "Eps", "U"}},
 			mplan{"eigensystem", []string{""}},
@@ -341,13 +384,17 @@ func plansFor(base []int, r, c int, full bool) []mplan {
 			mplan{"gramSchmidt", []string{""}},
 		)
 	}
-	if !full {
+	if mode != planFull {
 		// large lattices: the iterative routines only
 		var q []mplan
 		for _, p := range ps {
 			switch p.routine {
-			case "qrAlgorithm", "eigensystem", "svd", "msqrt", "msqrtInv":
+			case "qrAlgorithm", "eigensystem", "svd":
 				q = append(q, p)
+			case "msqrt", "msqrtInv":
+				if mode == planIter || sym {
+					q = append(q, p)
+				}
 			}
 		}
 		return q
@@ -481,19 +528,33 @@ func classFor(base []int, r, c int, routine string) string {
 // termMatrices enumerates the lattices, the degenerate families and the non-finite family.
 func termMatrices(c *vf.Ctx, idx *int64) {
 	st := &stager{c: c, confirmed: map[string]int{}}
-	runAll := func(base []int, r, cc int, full bool, elems []string, forceClass string, pos int, val string, rank int64) {
-		for _, p := range plansFor(base, r, cc, full) {
+	// runT runs every admissible routine × option on the input described by the template t
+	runT := func(t MCase, mode int, elems []string, forceClass string, rank int64) {
+		for _, p := range plansFor(t.symmetric(), t.R, t.C, mode) {
 			for _, o := range p.opts {
 				for _, e := range elems {
 					cl := forceClass
 					if cl == "" {
-						cl = classFor(base, r, cc, p.routine)
+						cl = classFor(t.Base, t.R, t.C, p.routine)
 					}
-					cs := &MCase{Routine: p.routine, Opts: o, Elem: e, R: r, C: cc, Base: base, Pos: pos, Val: val, Class: cl}
-					st.matrix(cs, rank)
+					cs := t
+					cs.Routine, cs.Opts, cs.Elem, cs.Class = p.routine, o, e, cl
+					st.matrix(&cs, rank)
 				}
 			}
 		}
+	}
+	runAll := func(base []int, r, cc int, full bool, elems []string, forceClass string, pos int, val string, rank int64) {
+		runT(MCase{R: r, C: cc, Base: base, Pos: pos, Val: val}, planMode(full), elems, forceClass, rank)
+	}
+	// runX runs the transformed variants s·2^k·D·A·D of the template (iterative routines, Float64)
+	runX := func(t MCase, xs []xform, forceClass string, rank int64) {
+		for k, x := range xs {
+			u := t
+			u.Negated, u.ScaleExp, u.SignMask = x.neg, x.exp, x.signs
+			runT(u, planLean, elems2[:1], forceClass, rank+int64(k)+1)
+		}
+		c.Count("transformed-variants(negated/scaled/sign-similar)", int64(len(xs)))
 	}
 	// 1. lattices
 	for _, l := range mlattices(c.Thorough()) {
@@ -518,6 +579,9 @@ func termMatrices(c *vf.Ctx, idx *int64) {
 				es = elems2
 			}
 			runAll(base, l.r, l.c, l.full, es, "", 0, "", lat.Weight(base))
+			if xs := l.xforms(base, c.Thorough()); len(xs) > 0 {
+				runX(MCase{R: l.r, C: l.c, Base: base}, xs, "", lat.Weight(base))
+			}
 		}
 		c.Count("matrices:"+l.name, done)
 	}
@@ -552,6 +616,11 @@ func termMatrices(c *vf.Ctx, idx *int64) {
 				}
 				runAll(bt, n, n, true, elems2, cl, 0, "", lat.Weight(base)+1)
 				c.Count("family:nilpotent", 2)
+				if i != 0 {
+					xs := xformSet(n, true, scalesFor(c.Thorough()), true)
+					runX(MCase{R: n, C: n, Base: base}, xs, cl, lat.Weight(base))
+					runX(MCase{R: n, C: n, Base: bt}, xs, cl, lat.Weight(base)+1)
+				}
 			}
 			for _, lam := range []int{0, 1, -1, 2} {
 				for _, lower := range []bool{false, true} {
@@ -572,6 +641,7 @@ func termMatrices(c *vf.Ctx, idx *int64) {
 					}
 					runAll(base, n, n, true, elems2, "jordan-block", 0, "", lat.Weight(base))
 					c.Count("family:jordan", 1)
+					runX(MCase{R: n, C: n, Base: base}, xformSet(n, true, scalesFor(c.Thorough()), true), "jordan-block", lat.Weight(base))
 				}
 			}
 			// rank one: u·vᵀ with u,v in {-1,0,1}^n, and identity·k
@@ -594,10 +664,17 @@ func termMatrices(c *vf.Ctx, idx *int64) {
 					}
 					runAll(base, n, n, n <= 3, elems2[:1], "rank-one", 0, "", lat.Weight(base))
 					c.Count("family:rank-one", 1)
+					if n <= 3 || c.Thorough() {
+						// u·vᵀ over {-1,0,1} is closed under negation and D·A·D: scalings only
+						runX(MCase{R: n, C: n, Base: base}, xformSet(n, false, scalesFor(c.Thorough()), false), "rank-one", lat.Weight(base))
+					}
 				}
 			}
 		}
 	}
+	// 2b. couplings below the rounding level of the other entries; 2c. block compositions
+	termTiny(c, idx, runT, runX)
+	termComposites(c, idx, runT, runX)
 	// 3. one non-finite entry at every position of a few base matrices
 	type nb struct {
 		name string
